@@ -140,9 +140,13 @@ func zzH03_maporder_stringDict() {
 		d[nm] = MakeInt(i)
 	}
 	var last []string
+	which := zzChoice("which", 2)
 	ref, got := zzUnderAllOrders(func() string {
 		last = d.Keys()
-		return strings.Join(last, ",") + "|" + d.String()
+		if which == 1 {
+			return d.String()
+		}
+		return strings.Join(last, ",")
 	})
 	zzAssert(got == ref, "C03.maporder.stringDict.same")
 	zzAssert(zzAnd(len(last) == n, zzIsSortedDistinct(last)), "C03.maporder.stringDict.sorted")
